@@ -184,7 +184,95 @@ func evCorridorInvalid(t *Tracer, r Rng) {
 	t.Emit(e, true)
 }
 
+// evFit: the layer fit of one voxel for two clearances c <= c2, next to the gaps (WGS84 chords)
+// between the voxel and its copies 1, 2, ... steps east and south, measured along the voxel's
+// poleward edge resp. along a meridian.  Lengths are scaled to integers below 2^26.
+func evFit(t *Tracer, id ID, c, c2 float64) {
+	n := int64(1) << uint(id.H)
+	lonOf := func(x int64) float64 { return gammaLon(x, id.H) }
+	latOf := func(y int64) float64 { return gammaLat(y, id.H) }
+	// poleward edge of the voxel
+	latP := latOf(id.Y)
+	if math.Abs(latOf(id.Y+1)) > math.Abs(latP) {
+		latP = latOf(id.Y + 1)
+	}
+	var gh, gv []float64
+	for k := int64(1); k <= 60; k++ {
+		if id.Y+k > n-1 || 2*k > n {
+			break
+		}
+		gh = append(gh, norm(sub(ecef(lonOf(id.X+1), latP, 0), ecef(lonOf(id.X+k), latP, 0))))
+		gv = append(gv, norm(sub(ecef(lonOf(id.X), latOf(id.Y+1), 0), ecef(lonOf(id.X), latOf(id.Y+k), 0))))
+		if gh[len(gh)-1] > 1.5*c2 && gv[len(gv)-1] > 1.5*c2 {
+			break
+		}
+	}
+	if len(gh) < 2 || gh[len(gh)-1] <= 1.5*c2 || gv[len(gv)-1] <= 1.5*c2 {
+		return // the grid runs out before the clearance is reached: the fit does not terminate there
+	}
+	mx := math.Max(c2, math.Max(gh[len(gh)-1], gv[len(gv)-1]))
+	unit := mx / float64(int64(1)<<26)
+	q := func(v float64) int64 {
+		k := int64(math.Round(v / unit))
+		if v > 0 && k == 0 {
+			k = 1
+		}
+		return k
+	}
+	qs := func(vs []float64) []int64 {
+		out := make([]int64, len(vs))
+		for i, v := range vs {
+			out[i] = q(v)
+		}
+		return out
+	}
+	var l1, l2 [2]int64
+	o, _ := guard(func() (any, error) {
+		var err error
+		l1[0], l1[1], err = transform.FitClearanceAroundExtendedSpatialID(id.String(), c)
+		if err != nil {
+			return nil, err
+		}
+		l2[0], l2[1], err = transform.FitClearanceAroundExtendedSpatialID(id.String(), c2)
+		return nil, err
+	})
+	e := absW.ev("Fit", map[string]any{"c": q(c), "c2": q(c2), "gh": qs(gh), "gv": qs(gv)})
+	e.O = o
+	e.Real = map[string]any{"id": id.String(), "c": fmt.Sprint(c), "c2": fmt.Sprint(c2), "unit_m": fmt.Sprint(unit)}
+	e.R = []any{[]int64{l1[0], l1[1]}, []int64{l2[0], l2[1]}}
+	t.Emit(e, true)
+}
+
+func driveFit(t *Tracer, r Rng, k int) {
+	for i := 0; i < k; i++ {
+		h := r.In(12, 30)
+		n := int64(1) << uint(h)
+		v := r.In(0, 35)
+		nv := int64(1) << uint(minI(v, 30))
+		id := ID{H: h, X: r.edgeIn(0, n-1), V: v, F: r.In(-nv, nv-1)}
+		// rows between about 80 degrees north and south
+		lat := (r.Float64()*2 - 1) * 80
+		id.Y = int64(mercW(lat) * float64(n))
+		if r.Chance(0.1) { // next to the equator, on either side
+			id.Y = n/2 - r.Pick(0, 1)
+		}
+		width := 2 * math.Pi * 6378137 * math.Cos(lat*math.Pi/180) / float64(n)
+		c := width * (0.05 + r.Float64()*3.5)
+		c2 := c * (1 + r.Float64()*1.5)
+		switch r.Intn(8) {
+		case 0:
+			c = 0
+		case 1:
+			c2 = c
+		}
+		evFit(t, id, c, c2)
+	}
+}
+
 func driveCorridor(t *Tracer, r Rng, n int) {
+	if n >= 20 {
+		driveFit(t, r, n/4)
+	}
 	for i := 0; i < n; i++ {
 		if i%25 == 24 {
 			evCorridorInvalid(t, r)
